@@ -40,7 +40,7 @@ func newSorts(mode Mode) *Sorts {
 	ix := s.idxSort()
 	s.decls = append(s.decls,
 		fmt.Sprintf("(declare-datatypes ((Slice 0)) (((mk-Slice (s.rgn Int) (s.off %s) (s.len %s) (s.cap %s)))))", ix, ix, ix),
-		fmt.Sprintf("(declare-datatypes ((Str 0)) (((mk-Str (str.arr (Array %s %s)) (str.len %s)))))", ix, s.byteSort(), ix),
+		fmt.Sprintf("(declare-datatypes ((Str 0)) (((mk-Str (gostr.arr (Array %s %s)) (gostr.len %s)))))", ix, s.byteSort(), ix),
 		"(declare-datatypes ((Iface 0)) (((mk-Iface (if.tid Int) (if.val Int)))))",
 		"(define-fun nil.Iface () Iface (mk-Iface 0 0))",
 	)
